@@ -575,8 +575,18 @@ def run(ctx):
         "number of states before gc is not observable through the public API: the mirror is fed pre_gc = post_gc = states of the u32 build; an unpredicted 'stategraph' refusal is accepted (counted as pre_gc_refusal)",
         "refusal = panic message containing 'not big enough', or the size assertions of StateGraph::new / StateTable::new, or the lexer's try_from message",
         "usize is 64 bit (C20_cell_roundtrip needs width(usize) >= width(StorageT) + 2)",
-        "the theorems are about reported sizes and indices (the bookkeeping mirror); equality of table CONTENTS and parse results across widths is "
-        "decided by the differential run only (transcript of an accepted u8/u16 build == transcript of the u32 build), not by a theorem",
+        "same numbering / table contents / parse results across widths — what is a theorem and what is differential: in C01's construction mirror "
+        "from_yacc_mirror the width is exactly the StorageT bound max_st plus the hash-order oracles. THEOREMS (Properties/C20.v, for every grammar, "
+        "fuel and oracle): the bound occurs only in checks — with the SAME iteration orders a wider type builds the identical StateGraph and StateTable "
+        "and a narrower one the identical ones or is refused by a StorageT size check (C20_construction_bound_monotone, _bound_only_refuses, "
+        "_narrow_same_or_refused, C20_refusal_is_storage_check, C20_construction_sizes_fit); for LR(1) grammars, and whenever both runs report no "
+        "conflict, ANY two successful runs (any bounds, any hash orders) give parsers with the same tree or the same first-error position on every "
+        "input (C20_parse_results_width_independent(_total), _conflict_free_agree); for arbitrary grammars both parsers are sound "
+        "(C20_parse_results_always_sound). DIFFERENTIAL ONLY: that the implementation's u8/u16/u32 builds are runs of that mirror under their own "
+        "FNV hash orders (tied for u32 by C01/C02's trace replay, not per width here), table contents across the implementation's per-width hash "
+        "orders (compared after canonical renumbering), parse results of conflict-resolved tables across widths (a resolved table may depend on the "
+        "merge order, see the remark in theories/C20/PipelineSpec.v), and everything about the grammar object and the lexer beyond the size guards "
+        "(transcript of an accepted u8/u16 build == transcript of the u32 build)",
         "boundary-size grammars have no weakly-compatible state merges, so their state graph is unique up to renumbering; for the merge family "
         "only renaming-invariant observations (conflict counts, state count, parse results) must agree — non-isomorphic tables are counted, not alarmed",
     ]
